@@ -243,9 +243,17 @@ type workerPool struct {
 	mu      sync.Mutex
 	workers map[string]*workerProc
 	starts  int
+	recent  map[string][][]byte // inputs already handled by the live worker of a mode (most recent last, at most 8)
 }
 
-var pool = &workerPool{workers: map[string]*workerProc{}}
+var pool = &workerPool{workers: map[string]*workerProc{}, recent: map[string][][]byte{}}
+
+// history returns the inputs the live worker of a mode has handled so far (up to 8).
+func (p *workerPool) history(mode string) [][]byte {
+	p.mu.Lock()
+	defer p.mu.Unlock()
+	return append([][]byte(nil), p.recent[mode]...)
+}
 
 // run executes one input in the isolated worker of the given mode,
 // (re)starting the worker as needed.
@@ -261,12 +269,34 @@ func (p *workerPool) run(mode string, input []byte, timeout time.Duration) (work
 		}
 		p.starts++
 		p.workers[mode] = w
+		p.recent[mode] = nil
 	}
 	out := w.call(input, timeout)
 	if out.Died || out.TimedOut {
 		delete(p.workers, mode)
+		p.recent[mode] = nil
+	} else if len(input) <= 1<<16 {
+		p.recent[mode] = append(p.recent[mode], append([]byte(nil), input...))
+		if len(p.recent[mode]) > 8 {
+			p.recent[mode] = p.recent[mode][1:]
+		}
 	}
 	return out, nil
+}
+
+// runFreshAfter replays a history in a brand-new worker and then executes the input.
+func runFreshAfter(mode string, history [][]byte, input []byte, timeout time.Duration) (workerOutcome, error) {
+	w, err := startWorker(mode)
+	if err != nil {
+		return workerOutcome{}, err
+	}
+	defer w.kill()
+	for _, h := range history {
+		if o := w.call(h, timeout); o.Died || o.TimedOut {
+			return workerOutcome{TimedOut: o.TimedOut, Died: o.Died, Stderr: "while replaying the history: " + o.Stderr, Fatal: o.Fatal}, nil
+		}
+	}
+	return w.call(input, timeout), nil
 }
 
 // runFresh executes one input alone in a brand-new worker (second stage of the hang rule).
